@@ -48,22 +48,22 @@ def _arr(tier, ns, eszs):
 
 HARNESSES = [
     dict(name="array", file="array.c", label="bounded(elements<=4)",
-         flags=LEAK, timeout=300, unwind=70,
+         flags=LEAK, timeout=900, unwind=70,
          cases=_arr("quick", (0, 1, 3), (4, 8)) + _arr("thorough", (2, 4), (1, 4, 8, 16))),
     dict(name="array_frame", file="array_frame.c", label="bounded(elements<=4)",
          mode="dfcc", enforce="array_init_copy", malloc_fail=True, native=False,
-         timeout=300, unwind=70,
+         timeout=900, unwind=70,
          cases=_arr("quick", (1, 3), (8,)) + _arr("thorough", (2, 4), (4, 16))),
     dict(name="predef", file="predef.c", label="proved",
          fp={"destroy": ["hook_destroy", "c19_obj_destroy"], "copy": ["hook_copy"]},
-         flags=LEAK, timeout=300),
+         flags=LEAK, timeout=900),
     dict(name="frag_table", file="frag_table.c", label="bounded(entries<=4)",
          fp={"destroy": ["frag_table_destroy"], "copy": ["frag_table_copy"]},
-         flags=LEAK, timeout=300, unwind=70,
+         flags=LEAK, timeout=900, unwind=70,
          cases=_n(0, 2) + _n(3, 4, "thorough")),
     dict(name="id_table", file="id_table.c", label="bounded(entries<=4)",
          fp={"destroy": ["id_table_destroy"], "copy": ["id_table_copy"]},
-         flags=LEAK, timeout=300, unwind=20,
+         flags=LEAK, timeout=900, unwind=20,
          cases=_n(0, 2) + _n(3, 4, "thorough")),
     dict(name="meta_reader", file="meta_reader.c", label="proved",
          fp={"destroy": ["meta_reader_destroy", "c19_obj_destroy"],
@@ -73,7 +73,7 @@ HARNESSES = [
          fp={"destroy": ["data_reader_destroy", "c19_obj_destroy"],
              "copy": ["data_reader_copy", "c19_obj_copy"],
              "read_at": "c19_unreachable_read_at", "do_block": "c19_unreachable_do_block"},
-         flags=LEAK, timeout=200, unwind=2,
+         flags=LEAK, timeout=600, unwind=2,
          cases=[dict(id="db%d_fb%d" % (d, f), defines={"HAVE_DB": d, "HAVE_FB": f}, tier="quick")
                 for d in (0, 1) for f in (0, 1)] +
                [dict(id="bs256_db1_fb1", tier="thorough", label="bounded(block_size<=256)", timeout=1500,
@@ -82,7 +82,7 @@ HARNESSES = [
          fp={"destroy": ["xattr_reader_destroy", "c19_obj_destroy"],
              "copy": ["xattr_reader_copy", "c19_obj_copy"],
              "read_at": "c19_unreachable_read_at", "do_block": "c19_unreachable_do_block"},
-         flags=LEAK, timeout=200, unwind=2,
+         flags=LEAK, timeout=600, unwind=2,
          cases=[dict(id="kv%d_id%d_nb%d" % (k, i, nb),
                      defines={"HAVE_KV": k, "HAVE_ID": i, "NB": nb}, tier=t)
                 for (k, i, nb, t) in ((1, 1, 2, "quick"), (0, 0, 0, "quick"), (1, 1, 0, "quick"),
@@ -90,7 +90,7 @@ HARNESSES = [
                                       (1, 1, 4, "thorough"), (1, 1, 1, "thorough"))]),
     dict(name="rbtree", file="rbtree.c", label="bounded(nodes<=3)", weight=4,
          fp={"key_compare": "cmp_stub"},
-         flags=LEAK, timeout=200, unwind=5,
+         flags=LEAK, timeout=600, unwind=5,
          cases=[dict(id="shape%d_%s" % (sh, cfg), tier=t,
                      defines=dict({"SHAPE": sh}, **({"NO_CUSTOM_ALLOC": None} if cfg == "calloc" else {})))
                 for cfg in ("pool", "calloc")
@@ -99,44 +99,44 @@ HARNESSES = [
     dict(name="str_table", file="str_table.c", label="bounded(strings<=2,len=7)", weight=7,
          fp={"key_equals_function": "eq_stub", "key_hash_function": "hash_stub",
              "delete_function": "del_stub"},
-         flags=LEAK, timeout=300, unwind=6,
+         flags=LEAK, timeout=900, unwind=6,
          cases=[dict(id="n%d" % n, defines={"N": n}, tier="quick",
                      unwindset=["str_table_copy.0:%d" % (n + 2), "str_table_cleanup.0:%d" % (n + 2)])
                 for n in (1, 2)]),
     dict(name="comp_xz", file="comp_flat.c", label="proved", defines={"COMP": 1},
          fp={"destroy": "xz_destroy", "copy": "xz_create_copy", "*": "c19_unreachable_read_at"},
-         flags=LEAK, timeout=200, unwind=2),
+         flags=LEAK, timeout=600, unwind=2),
     dict(name="comp_lz4", file="comp_flat.c", label="proved", defines={"COMP": 2},
          fp={"destroy": "lz4_destroy", "copy": "lz4_create_copy", "*": "c19_unreachable_read_at"},
-         flags=LEAK, timeout=200, unwind=2),
+         flags=LEAK, timeout=600, unwind=2),
     dict(name="comp_lzma", file="comp_flat.c", label="proved", defines={"COMP": 3},
          fp={"destroy": "lzma_destroy", "copy": "lzma_create_copy", "*": "c19_unreachable_read_at"},
-         flags=LEAK, timeout=200, unwind=2),
+         flags=LEAK, timeout=600, unwind=2),
     dict(name="comp_gzip", file="comp_gzip.c", label="proved",
          fp={"destroy": "gzip_destroy", "copy": "gzip_create_copy", "*": "c19_unreachable_read_at"},
-         flags=LEAK, timeout=200, unwind=2,
+         flags=LEAK, timeout=600, unwind=2,
          cases=[dict(id="compress", defines={"COMPRESS": 1}, tier="quick"),
                 dict(id="uncompress", defines={"COMPRESS": 0}, tier="quick")]),
     dict(name="comp_zstd", file="comp_zstd.c", label="proved",
          fp={"destroy": "zstd_destroy", "copy": "zstd_create_copy", "*": "c19_unreachable_read_at"},
-         flags=LEAK, timeout=200, unwind=2),
+         flags=LEAK, timeout=600, unwind=2),
     dict(name="stdio_file", file="stdio_file.c", label="bounded(name_len<=12)",
          fp={"destroy": "stdio_destroy", "copy": "stdio_copy", "*": "c19_unreachable_read_at"},
-         flags=LEAK, timeout=200, unwind=9,
+         flags=LEAK, timeout=600, unwind=9,
          cases=[dict(id="nl%d" % n, defines={"NL": n}, tier=t)
                 for n, t in ((1, "quick"), (5, "quick"), (12, "thorough"))]),
     dict(name="dir_reader", file="dir_reader.c", label="bounded(dcache_nodes<=2)", weight=9,
          fp={"destroy": ["dir_reader_destroy", "c19_obj_destroy"],
              "copy": ["dir_reader_copy", "c19_obj_copy"],
              "key_compare": "dcache_key_compare", "*": "c19_unreachable_read_at"},
-         flags=LEAK, timeout=3000, unwind=2,
+         flags=LEAK, timeout=9000, unwind=2,
          unwindset=["copy_node:4", "destroy_nodes_dfs:4"] + ["harness.%d:4" % i for i in range(5)],
          cases=[dict(id="dot%d_nn%d" % (d, n), defines={"DOT": d, "NN": n}, tier=t)
                 for d, n, t in ((1, 0, "quick"), (0, 0, "thorough"), (1, 1, "thorough"), (1, 2, "thorough"))]),
     dict(name="xattr_writer", file="xattr_writer.c", label="bounded(blocks<=1,pairs=3)", weight=6,
          fp={"destroy": "xattr_writer_destroy", "copy": "xattr_writer_copy",
              "key_compare": "block_compare"},
-         flags=LEAK, timeout=300, unwind=4,
+         flags=LEAK, timeout=900, unwind=4,
          cases=[dict(id="nb%d_first%d" % (n, f), defines={"NB": n, "FIRST": f}, tier=t,
                      unwindset=["xattr_writer_copy.0:%d" % (n + 2), "rbtree_lookup.0:%d" % (n + 1),
                                 "copy_node:%d" % (n + 1), "destroy_nodes_dfs:%d" % (n + 2)])
@@ -144,5 +144,5 @@ HARNESSES = [
     dict(name="ht_clone", file="ht_clone.c", label="proved",
          fp={"key_equals_function": "eq_stub", "key_hash_function": "hash_stub",
              "delete_function": "del_stub"},
-         flags=LEAK, timeout=200, unwind=7),
+         flags=LEAK, timeout=600, unwind=7),
 ]
